@@ -2,8 +2,6 @@ package main
 
 import (
 	"fmt"
-	"go/ast"
-	"go/token"
 	"sort"
 	"strconv"
 	"strings"
@@ -17,103 +15,9 @@ import (
 	"verif/harness/hc"
 )
 
-const pkgDir = "telegram/message/entity"
-
 func main() { hc.Main(hc.Spec{Prop: "C35", Facts: facts, Run: run}) }
 
-func oneLine(s string) string { return strings.Join(strings.Fields(s), " ") }
-
-// entityFacts are the facts shared by C35 and C37 (same builder model).
-func entityFacts(f *hc.Facts) {
-	// --- utf16RuneLen: the two local constants and the shape of the test
-	surr, maxR, shape := "", "", false
-	if fd := f.FuncDecl(pkgDir, "utf16RuneLen"); fd != nil && fd.Body != nil {
-		var rest []string
-		for _, st := range fd.Body.List {
-			if ds, ok := st.(*ast.DeclStmt); ok {
-				if gd, ok := ds.Decl.(*ast.GenDecl); ok && gd.Tok == token.CONST {
-					for _, sp := range gd.Specs {
-						vs := sp.(*ast.ValueSpec)
-						for i, n := range vs.Names {
-							if i >= len(vs.Values) {
-								continue
-							}
-							lit, ok := vs.Values[i].(*ast.BasicLit)
-							if !ok {
-								continue
-							}
-							val := ""
-							switch lit.Kind {
-							case token.INT:
-								if v, err := strconv.ParseInt(lit.Value, 0, 64); err == nil {
-									val = strconv.FormatInt(v, 10)
-								}
-							case token.CHAR:
-								if s, err := strconv.Unquote(lit.Value); err == nil {
-									val = strconv.Itoa(int([]rune(s)[0]))
-								}
-							}
-							switch n.Name {
-							case "surrSelf":
-								surr = val
-							case "maxRune":
-								maxR = val
-							}
-						}
-					}
-					continue
-				}
-			}
-			rest = append(rest, oneLine(f.Src(st)))
-		}
-		shape = strings.Join(rest, " ; ") == "if surrSelf <= v && v <= maxRune { return 2 } ; return 1"
-	}
-	if surr == "" {
-		f.Missing("surrSelf", "const surrSelf in utf16RuneLen")
-	} else {
-		f.Raw("def surrSelf : Nat := " + surr + " -- entity.utf16RuneLen: const surrSelf")
-	}
-	if maxR == "" {
-		f.Missing("maxRune", "const maxRune in utf16RuneLen")
-	} else {
-		f.Raw("def maxRune : Nat := " + maxR + " -- entity.utf16RuneLen: const maxRune")
-	}
-	f.Bool("runeLenShape", shape, "utf16RuneLen is `if surrSelf <= v && v <= maxRune { return 2 }; return 1`")
-	f.Bool("computeLengthShape", oneLine(f.FuncSrc(pkgDir, "ComputeLength")) == "{ n := 0 for _, v := range s { n += utf16RuneLen(v) } return n }",
-		"ComputeLength sums utf16RuneLen over the runes of s")
-	// --- the comparator used by Complete's sort (translator: harness/hc/c36_less.go)
-	hc.C36LessFacts(f, pkgDir)
-	// --- fixEntities trims with strings.TrimRightFunc(.., unicode.IsSpace); Complete = fixEntities + SortEntities
-	trim := false
-	if fd := f.FuncDecl(pkgDir, "Builder.fixEntities"); fd != nil && fd.Body != nil {
-		ast.Inspect(fd.Body, func(n ast.Node) bool {
-			if c, ok := n.(*ast.CallExpr); ok && len(c.Args) == 2 {
-				if oneLine(f.Src(c.Fun)) == "strings.TrimRightFunc" && oneLine(f.Src(c.Args[1])) == "unicode.IsSpace" {
-					trim = true
-				}
-			}
-			return true
-		})
-	}
-	f.Bool("trimIsTrimRightSpace", trim, "fixEntities trims with strings.TrimRightFunc(_, unicode.IsSpace)")
-	sorts, fixes := false, false
-	if fd := f.FuncDecl(pkgDir, "Builder.Complete"); fd != nil && fd.Body != nil {
-		ast.Inspect(fd.Body, func(n ast.Node) bool {
-			if c, ok := n.(*ast.CallExpr); ok {
-				switch oneLine(f.Src(c.Fun)) {
-				case "SortEntities":
-					sorts = true
-				case "b.fixEntities":
-					fixes = true
-				}
-			}
-			return true
-		})
-	}
-	f.Bool("completeFixesAndSorts", sorts && fixes, "Builder.Complete calls b.fixEntities and SortEntities")
-}
-
-func facts(f *hc.Facts) { entityFacts(f) }
+func facts(f *hc.Facts) { hc.C35EntityFacts(f) }
 
 // ---------------------------------------------------------------------------------------------
 // op lists
